@@ -24,11 +24,11 @@ CLAIMS = {
     "C15": ("", "iterator-order, one-next-per-item and no-nested-delivery (ddepth) obligations on the extracted loop closure with a loop invariant"),
     "C16": ("", "the async task is lifted as a function with `.await` as a yield to the verified environment: k-th delivery is k, nothing after the disposal flag is seen, spawn failure yields exactly one Error; real time (one yield = one period; first tick after the greeting) and counter wrap-around are stated assumptions"),
     "C17": ("", "Verus proves every panic!/expect/unwrap/overflow site in the extracted bodies unreachable"),
+    "C19": ("profile T; only the at-most-n half of the property: the counter invariant at shared-access granularity; the exactly-once termination half under threads is NOT covered", "rely/guarantee at statement (= shared access) granularity on the extracted Data path of take: `interfere` (other threads' atomic steps, assumed to preserve the invariant and only increase the counter) is inserted mechanically before every statement touching the shared cells; the invariant taken <= n is the precondition of every interference point; `fetch_update` is one atomic step. The unfixed load+fetch_add code fails it (finding F7, fixed in /repo)"),
     "C20": ("", "the same contracts are discharged on the bodies extracted from the --features tracing expansion (real call! arm); user-closure call counters pin single evaluation"),
 }
 NA = {
-    "C18": "thread-interleaving profile not built yet",
-    "C19": "thread-interleaving profile not built yet",
+    "C18": "not decidable with the contract technique available here: merge!/combine! exactly-once under threads needs a ticket-uniqueness argument over std atomics shared between threads (thread-local ghost permissions); Verus has no model of std::sync::atomic / arc_swap shared across real threads without rewriting the code onto its own atomic types, and Kani has no threads. The sequential proofs (C08, C10) and the access-granularity proof for take (C19) are what exists; finding F8 (combine unwrap under a race) was observed by stress runs only",
 }
 import glob, re as _re
 COVER = {}
